@@ -9,6 +9,9 @@ CONSTANTS
   FullOrder = FALSE
   Points <- Pts1
   Feeds <- Fd1
+  PhaseMaps <- Ph1
+  ReKVals <- NoReK
+  MaxHist = 0
   Configs <- CfgAll
   Comp <- CompDef
 INVARIANT FreeVsInlinedAgree
@@ -20,5 +23,7 @@ INVARIANT UntouchedOnlyFeed
 INVARIANT RatePolyMatches
 INVARIANT OTypeOK
 INVARIANT PolyAgreesWithFold
+INVARIANT FeedExact
+INVARIANT CurrentConstantRules
 INVARIANT EmitBuild
 CHECK_DEADLOCK FALSE
